@@ -54,8 +54,32 @@ def pre_cov(run, args, kwargs):
     return snap
 
 
+def _expected_rows_sparse(truth, bed, min_mapq):
+    """Same quantity for contigs too long for a per-base array: each bin's bases summed over the counted reads' aligned blocks."""
+    contigs = [tuple(c) for c in truth["contigs"]]
+    idx = {n: i for i, (n, _l) in enumerate(contigs)}
+    blocks = {i: [] for i in range(len(contigs))}
+    for r in truth["reads"]:
+        if SB.counted(r, min_mapq or 0):
+            blocks[r["tid"]] += list(SB.aligned_blocks(r))
+    out = []
+    for c, s, e, g in bed:
+        if c not in idx:
+            out.append(None)
+            continue
+        if e > s:
+            bases = sum(max(0, min(e, be) - max(s, bs)) for bs, be in blocks[idx[c]])
+            depth = bases / (e - s)
+        else:
+            depth = 0.0
+        out.append((depth, math.log2(depth) if depth > 0 else -20.0))
+    return out
+
+
 def expected_rows(truth, bed, min_mapq):
     contigs = [tuple(c) for c in truth["contigs"]]
+    if max((l for _n, l in contigs), default=0) > 2_000_000:
+        return _expected_rows_sparse(truth, bed, min_mapq)
     arrs = SB.depth_arrays(contigs, truth["reads"], min_mapq or 0)
     cs = [np.concatenate([[0], np.cumsum(a)]) for a in arrs]
     idx = {n: i for i, (n, _l) in enumerate(contigs)}
@@ -117,6 +141,8 @@ def post_cov(run, snap, res, args, kwargs):
         if not abs(l - e[1]) <= 1e-9 * max(1.0, abs(e[1])):
             return run.violate(mon, f"{algo}-log2-wrong", f"bin {k}: log2 {l} for depth {d}, expected {e[1]}", dict(wit, bin=k, expected=e))
         n_cov += e[0] > 0
+        if 0 < e[0] < 2.0 ** -20:
+            run.extra[f"bins-covered-below-2^-20:{algo}"] += 1
     run.extra[f"bins-judged:{algo}"] += len(got)
     run.extra[f"bins-with-coverage:{algo}"] += int(n_cov)
     run.held(mon, f"cov:{algo}:q{a['min_mapq']}:p{min(int(a['processes'] or 0), 16)}" + (":indels" if truth.get("indels") else ""))
